@@ -5210,7 +5210,40 @@ let op_table =
                  ((sh_tp r) :: ((';'::[]) :: ((sh_tres (tp_add_trunc md t r)) :: [])))
              | x -> sh_tres x)))))) :: ((('s'::('_'::('t'::('r'::('u'::('n'::('c'::('e'::('x'::('p'::('e'::('c'::('t'::[]))))))))))))),
     (bind rMode (fun md ->
-      bind rTrunc (fun t -> bind rTp (fun p -> ret (trunc_expect md t p)))))) :: ((('s'::('_'::('l'::('o'::('c'::('a'::('l'::('d'::('s'::[]))))))))),
+      bind rTrunc (fun t -> bind rTp (fun p -> ret (trunc_expect md t p)))))) :: ((('s'::('_'::('c'::('i'::('v'::('i'::('l'::[]))))))),
+    (bind rMode (fun md ->
+      bind rTp (fun p ->
+        ret
+          (let (n0, x) = local_ds md p p.tzone in
+           let (p0, d) = cal_of_dn md n0 in
+           let (y, m) = p0 in
+           let (_, doy) = ord_of_dn md n0 in
+           let sec = qfloor x in
+           let unix =
+             qfloor
+               (qminus (instant md p)
+                 (instant md { tdate = (Cal ((Zpos (XO (XI (XO (XO (XI (XI
+                   (XO (XI (XI (XI XH))))))))))), (Zpos XH), (Zpos XH)));
+                   ttod = (HMS ({ qnum = Z0; qden = XH }, { qnum = Z0; qden =
+                   XH }, { qnum = Z0; qden = XH })); tzone = { zh = Z0; zm =
+                   Z0 } }))
+           in
+           unwords
+             ((show_Z y) :: ((show_Z m) :: ((show_Z d) :: ((show_Z doy) :: (
+             (show_Z
+               (Z.div sec (Zpos (XO (XO (XO (XO (XI (XO (XO (XO (XO (XI (XI
+                 XH)))))))))))))) :: ((show_Z
+                                        (Z.modulo
+                                          (Z.div sec (Zpos (XO (XO (XI (XI
+                                            (XI XH))))))) (Zpos (XO (XO (XI
+                                          (XI (XI XH)))))))) :: ((show_Z
+                                                                   (Z.modulo
+                                                                    sec (Zpos
+                                                                    (XO (XO
+                                                                    (XI (XI
+                                                                    (XI
+                                                                    XH)))))))) :: (
+             (show_Z unix) :: []))))))))))))) :: ((('s'::('_'::('l'::('o'::('c'::('a'::('l'::('d'::('s'::[]))))))))),
     (bind rMode (fun md ->
       bind rTp (fun p ->
         bind rZone (fun z0 ->
@@ -5331,7 +5364,7 @@ let op_table =
       bind rDate (fun d ->
         ret
           (sh_opt sh_date
-            (if date_in_bounds md d then to_week_date md d else None)))))) :: []))))))))))))))))))))))))))))))))))))))))))))))))))))))))))))))))))))))
+            (if date_in_bounds md d then to_week_date md d else None)))))) :: [])))))))))))))))))))))))))))))))))))))))))))))))))))))))))))))))))))))))
 
 (** val lookup : char list -> (char list * 'a1) list -> 'a1 option **)
 
@@ -5796,16 +5829,21 @@ let at_end = function
             | [] -> (=) c nL
             | _::_ -> false)
 
+(** val uncons : char -> char list -> char list option **)
+
+let uncons c = function
+| [] -> None
+| a::r -> if (=) a c then Some r else None
+
 (** val take_unit : char -> char list -> char list option * char list **)
 
 let take_unit c s =
   let (ds, r) = span_digits s in
-  (match ds with
-   | [] -> (None, s)
-   | _::_ ->
-     (match r with
-      | [] -> (None, s)
-      | a::r' -> if (=) a c then ((Some ds), r') else (None, s)))
+  if str_nonempty ds
+  then (match uncons c r with
+        | Some r' -> ((Some ds), r')
+        | None -> (None, s))
+  else (None, s)
 
 (** val match_date :
     char list -> ((char list option * char list option) * char list
@@ -5871,219 +5909,55 @@ type groups = { g_years : char list option; g_months : char list option;
 
 (** val re1 : char list -> groups option **)
 
-let re1 = function
-| [] -> None
-| a::r ->
-  (* If this appears, you're using Ascii internals. Please don't *)
- (fun f c ->
-  let n = Char.code c in
-  let h i = (n land (1 lsl i)) <> 0 in
-  f (h 0) (h 1) (h 2) (h 3) (h 4) (h 5) (h 6) (h 7))
-    (fun b b0 b1 b2 b3 b4 b5 b6 ->
-    if b
-    then None
-    else if b0
-         then None
-         else if b1
-              then None
-              else if b2
-                   then None
-                   else if b3
-                        then if b4
-                             then None
-                             else if b5
-                                  then if b6
-                                       then None
-                                       else let (p, r3) = match_date r in
-                                            let (p0, d) = p in
-                                            let (y, mo) = p0 in
-                                            if at_end r3
-                                            then Some { g_years = y;
-                                                   g_months = mo; g_days = d;
-                                                   g_hours = None;
-                                                   g_minutes = None;
-                                                   g_seconds = None;
-                                                   g_weeks = None }
-                                            else None
-                                  else None
-                        else None)
-    a
+let re1 s =
+  match uncons 'P' s with
+  | Some r ->
+    let (p, r3) = match_date r in
+    let (p0, d) = p in
+    let (y, mo) = p0 in
+    if at_end r3
+    then Some { g_years = y; g_months = mo; g_days = d; g_hours = None;
+           g_minutes = None; g_seconds = None; g_weeks = None }
+    else None
+  | None -> None
 
 (** val re2 : char list -> groups option **)
 
-let re2 = function
-| [] -> None
-| a::r ->
-  (* If this appears, you're using Ascii internals. Please don't *)
- (fun f c ->
-  let n = Char.code c in
-  let h i = (n land (1 lsl i)) <> 0 in
-  f (h 0) (h 1) (h 2) (h 3) (h 4) (h 5) (h 6) (h 7))
-    (fun b b0 b1 b2 b3 b4 b5 b6 ->
-    if b
-    then None
-    else if b0
-         then None
-         else if b1
-              then None
-              else if b2
-                   then None
-                   else if b3
-                        then if b4
-                             then None
-                             else if b5
-                                  then if b6
-                                       then None
-                                       else let (p, r3) = match_date r in
-                                            let (p0, d) = p in
-                                            let (y, mo) = p0 in
-                                            (match r3 with
-                                             | [] -> None
-                                             | a0::t ->
-                                               (* If this appears, you're using Ascii internals. Please don't *)
- (fun f c ->
-  let n = Char.code c in
-  let h i = (n land (1 lsl i)) <> 0 in
-  f (h 0) (h 1) (h 2) (h 3) (h 4) (h 5) (h 6) (h 7))
-                                                 (fun b7 b8 b9 b10 b11 b12 b13 b14 ->
-                                                 if b7
-                                                 then None
-                                                 else if b8
-                                                      then None
-                                                      else if b9
-                                                           then if b10
-                                                                then None
-                                                                else 
-                                                                  if b11
-                                                                  then 
-                                                                    if b12
-                                                                    then None
-                                                                    else 
-                                                                    if b13
-                                                                    then 
-                                                                    if b14
-                                                                    then None
-                                                                    else 
-                                                                    (match 
-                                                                    match_time
-                                                                    t with
-                                                                    | Some p1 ->
-                                                                    let (
-                                                                    p2, se) =
-                                                                    p1
-                                                                    in
-                                                                    let (
-                                                                    h, mi) =
-                                                                    p2
-                                                                    in
-                                                                    Some
-                                                                    { g_years =
-                                                                    y;
-                                                                    g_months =
-                                                                    mo;
-                                                                    g_days =
-                                                                    d;
-                                                                    g_hours =
-                                                                    h;
-                                                                    g_minutes =
-                                                                    mi;
-                                                                    g_seconds =
-                                                                    se;
-                                                                    g_weeks =
-                                                                    None }
-                                                                    | None ->
-                                                                    None)
-                                                                    else None
-                                                                  else None
-                                                           else None)
-                                                 a0)
-                                  else None
-                        else None)
-    a
+let re2 s =
+  match uncons 'P' s with
+  | Some r ->
+    let (p, r3) = match_date r in
+    let (p0, d) = p in
+    let (y, mo) = p0 in
+    (match uncons 'T' r3 with
+     | Some t ->
+       (match match_time t with
+        | Some p1 ->
+          let (p2, se) = p1 in
+          let (h, mi) = p2 in
+          Some { g_years = y; g_months = mo; g_days = d; g_hours = h;
+          g_minutes = mi; g_seconds = se; g_weeks = None }
+        | None -> None)
+     | None -> None)
+  | None -> None
 
 (** val re3 : char list -> groups option **)
 
-let re3 = function
-| [] -> None
-| a::r ->
-  (* If this appears, you're using Ascii internals. Please don't *)
- (fun f c ->
-  let n = Char.code c in
-  let h i = (n land (1 lsl i)) <> 0 in
-  f (h 0) (h 1) (h 2) (h 3) (h 4) (h 5) (h 6) (h 7))
-    (fun b b0 b1 b2 b3 b4 b5 b6 ->
-    if b
-    then None
-    else if b0
-         then None
-         else if b1
-              then None
-              else if b2
-                   then None
-                   else if b3
-                        then if b4
-                             then None
-                             else if b5
-                                  then if b6
-                                       then None
-                                       else let (ds, r1) = span_digits r in
-                                            (match ds with
-                                             | [] -> None
-                                             | _::_ ->
-                                               (match r1 with
-                                                | [] -> None
-                                                | a0::r2 ->
-                                                  (* If this appears, you're using Ascii internals. Please don't *)
- (fun f c ->
-  let n = Char.code c in
-  let h i = (n land (1 lsl i)) <> 0 in
-  f (h 0) (h 1) (h 2) (h 3) (h 4) (h 5) (h 6) (h 7))
-                                                    (fun b7 b8 b9 b10 b11 b12 b13 b14 ->
-                                                    if b7
-                                                    then if b8
-                                                         then if b9
-                                                              then if b10
-                                                                   then None
-                                                                   else 
-                                                                    if b11
-                                                                    then 
-                                                                    if b12
-                                                                    then None
-                                                                    else 
-                                                                    if b13
-                                                                    then 
-                                                                    if b14
-                                                                    then None
-                                                                    else 
-                                                                    if 
-                                                                    at_end r2
-                                                                    then 
-                                                                    Some
-                                                                    { g_years =
-                                                                    None;
-                                                                    g_months =
-                                                                    None;
-                                                                    g_days =
-                                                                    None;
-                                                                    g_hours =
-                                                                    None;
-                                                                    g_minutes =
-                                                                    None;
-                                                                    g_seconds =
-                                                                    None;
-                                                                    g_weeks =
-                                                                    (Some
-                                                                    ds) }
-                                                                    else None
-                                                                    else None
-                                                                    else None
-                                                              else None
-                                                         else None
-                                                    else None)
-                                                    a0))
-                                  else None
-                        else None)
-    a
+let re3 s =
+  match uncons 'P' s with
+  | Some r ->
+    let (ds, r1) = span_digits r in
+    if str_nonempty ds
+    then (match uncons 'W' r1 with
+          | Some r2 ->
+            if at_end r2
+            then Some { g_years = None; g_months = None; g_days = None;
+                   g_hours = None; g_minutes = None; g_seconds = None;
+                   g_weeks = (Some ds) }
+            else None
+          | None -> None)
+    else None
+  | None -> None
 
 (** val comma_to_point : char list -> char list **)
 
@@ -6182,40 +6056,15 @@ let conv_float s =
     if float_safe i f then TOk0 (dval i f) else TUnmodelled
   in
   let (i, r) = span_digits v in
-  (match i with
-   | [] -> other
-   | _::_ ->
-     (match r with
-      | [] -> plain i []
-      | a::fr ->
-        (* If this appears, you're using Ascii internals. Please don't *)
- (fun f c ->
-  let n = Char.code c in
-  let h i = (n land (1 lsl i)) <> 0 in
-  f (h 0) (h 1) (h 2) (h 3) (h 4) (h 5) (h 6) (h 7))
-          (fun b b0 b1 b2 b3 b4 b5 b6 ->
-          if b
-          then other
-          else if b0
-               then if b1
-                    then if b2
-                         then if b3
-                              then other
-                              else if b4
-                                   then if b5
-                                        then other
-                                        else if b6
-                                             then other
-                                             else let (f, r2) = span_digits fr
-                                                  in
-                                                  (match r2 with
-                                                   | [] -> plain i f
-                                                   | _::_ -> other)
-                                   else other
-                         else other
-                    else other
-               else other)
-          a))
+  if str_nonempty i
+  then (match r with
+        | [] -> plain i []
+        | a::fr ->
+          if (=) a '.'
+          then let (f, r2) = span_digits fr in
+               if str_nonempty r2 then other else plain i f
+          else other)
+  else other
 
 (** val conv_oint : char list option -> z tres0 **)
 
@@ -6294,1987 +6143,207 @@ let alt_make y mo d h mi s =
 
 let alt_time_basic t =
   let (ds, r) = span_digits t in
-  (match r with
-   | [] ->
-     if Nat.eqb (slen ds) (S (S (S (S (S (S O))))))
-     then Some (((stake (S (S O)) ds),
-            (stake (S (S O)) (sdrop (S (S O)) ds))),
-            (sdrop (S (S (S (S O)))) ds))
-     else None
-   | _::_ -> None)
+  if str_nonempty r
+  then None
+  else if Nat.eqb (slen ds) (S (S (S (S (S (S O))))))
+       then Some (((stake (S (S O)) ds),
+              (stake (S (S O)) (sdrop (S (S O)) ds))),
+              (sdrop (S (S (S (S O)))) ds))
+       else None
 
 (** val alt_time_ext :
     char list -> ((char list * char list) * char list) option **)
 
 let alt_time_ext t =
   let (h, r1) = span_digits t in
-  (match r1 with
-   | [] -> None
-   | a::t2 ->
-     (* If this appears, you're using Ascii internals. Please don't *)
- (fun f c ->
-  let n = Char.code c in
-  let h i = (n land (1 lsl i)) <> 0 in
-  f (h 0) (h 1) (h 2) (h 3) (h 4) (h 5) (h 6) (h 7))
-       (fun b b0 b1 b2 b3 b4 b5 b6 ->
-       if b
-       then None
-       else if b0
-            then if b1
-                 then None
-                 else if b2
-                      then if b3
-                           then if b4
-                                then if b5
-                                     then None
-                                     else if b6
-                                          then None
-                                          else let (mi, r2) = span_digits t2
-                                               in
-                                               (match r2 with
-                                                | [] -> None
-                                                | a0::t3 ->
-                                                  (* If this appears, you're using Ascii internals. Please don't *)
- (fun f c ->
-  let n = Char.code c in
-  let h i = (n land (1 lsl i)) <> 0 in
-  f (h 0) (h 1) (h 2) (h 3) (h 4) (h 5) (h 6) (h 7))
-                                                    (fun b7 b8 b9 b10 b11 b12 b13 b14 ->
-                                                    if b7
-                                                    then None
-                                                    else if b8
-                                                         then if b9
-                                                              then None
-                                                              else if b10
-                                                                   then 
-                                                                    if b11
-                                                                    then 
-                                                                    if b12
-                                                                    then 
-                                                                    if b13
-                                                                    then None
-                                                                    else 
-                                                                    if b14
-                                                                    then None
-                                                                    else 
-                                                                    let (
-                                                                    s, r3) =
-                                                                    span_digits
-                                                                    t3
-                                                                    in
-                                                                    (
-                                                                    match r3 with
-                                                                    | [] ->
-                                                                    if 
-                                                                    (&&)
-                                                                    ((&&)
-                                                                    (Nat.eqb
-                                                                    (slen h)
-                                                                    (S (S O)))
-                                                                    (Nat.eqb
-                                                                    (slen mi)
-                                                                    (S (S O))))
-                                                                    (Nat.eqb
-                                                                    (slen s)
-                                                                    (S (S O)))
-                                                                    then 
-                                                                    Some ((h,
-                                                                    mi), s)
-                                                                    else None
-                                                                    | _::_ ->
-                                                                    None)
-                                                                    else None
-                                                                    else None
-                                                                   else None
-                                                         else None)
-                                                    a0)
-                                else None
-                           else None
-                      else None
-            else None)
-       a)
+  (match uncons ':' r1 with
+   | Some t2 ->
+     let (mi, r2) = span_digits t2 in
+     (match uncons ':' r2 with
+      | Some t3 ->
+        let (s, r3) = span_digits t3 in
+        if str_nonempty r3
+        then None
+        else if (&&)
+                  ((&&) (Nat.eqb (slen h) (S (S O)))
+                    (Nat.eqb (slen mi) (S (S O))))
+                  (Nat.eqb (slen s) (S (S O)))
+             then Some ((h, mi), s)
+             else None
+      | None -> None)
+   | None -> None)
+
+(** val alt_basic : char list -> char list -> dur tres0 **)
+
+let alt_basic a r =
+  match uncons 'T' r with
+  | Some t ->
+    (match alt_time_basic t with
+     | Some p ->
+       let (p0, s) = p in
+       let (h, mi) = p0 in
+       if Nat.eqb (slen a) (S (S (S (S (S (S (S (S O))))))))
+       then alt_make (stake (S (S (S (S O)))) a)
+              (stake (S (S O)) (sdrop (S (S (S (S O)))) a))
+              (sdrop (S (S (S (S (S (S O)))))) a) h mi s
+       else if Nat.eqb (slen a) (S (S (S (S (S (S (S O)))))))
+            then alt_make (stake (S (S (S (S O)))) a) ('0'::[])
+                   (sdrop (S (S (S (S O)))) a) h mi s
+            else TUnmodelled
+     | None -> TUnmodelled)
+  | None ->
+    (match uncons 'W' r with
+     | Some r1 ->
+       let (wd, r2) = span_digits r1 in
+       (match uncons 'T' r2 with
+        | Some t ->
+          (match alt_time_basic t with
+           | Some _ ->
+             if (&&) (Nat.eqb (slen a) (S (S (S (S O)))))
+                  (Nat.eqb (slen wd) (S (S (S O))))
+             then TSyntax
+             else TUnmodelled
+           | None -> TUnmodelled)
+        | None -> TUnmodelled)
+     | None -> TUnmodelled)
+
+(** val alt_extended : char list -> char list -> dur tres0 **)
+
+let alt_extended a r1 =
+  match uncons 'W' r1 with
+  | Some r2 ->
+    let (w, r3) = span_digits r2 in
+    (match uncons '-' r3 with
+     | Some r4 ->
+       let (dd, r5) = span_digits r4 in
+       (match uncons 'T' r5 with
+        | Some t ->
+          (match alt_time_ext t with
+           | Some _ ->
+             if (&&) (Nat.eqb (slen w) (S (S O))) (Nat.eqb (slen dd) (S O))
+             then TSyntax
+             else TUnmodelled
+           | None -> TUnmodelled)
+        | None -> TUnmodelled)
+     | None -> TUnmodelled)
+  | None ->
+    let (b, r2) = span_digits r1 in
+    (match uncons 'T' r2 with
+     | Some t ->
+       (match alt_time_ext t with
+        | Some p ->
+          let (p0, s) = p in
+          let (h, mi) = p0 in
+          if Nat.eqb (slen b) (S (S (S O)))
+          then alt_make a ('0'::[]) b h mi s
+          else TUnmodelled
+        | None -> TUnmodelled)
+     | None ->
+       (match uncons '-' r2 with
+        | Some r3 ->
+          let (c, r4) = span_digits r3 in
+          (match uncons 'T' r4 with
+           | Some t ->
+             (match alt_time_ext t with
+              | Some p ->
+                let (p0, s) = p in
+                let (h, mi) = p0 in
+                if (&&) (Nat.eqb (slen b) (S (S O)))
+                     (Nat.eqb (slen c) (S (S O)))
+                then alt_make a b c h mi s
+                else TUnmodelled
+              | None -> TUnmodelled)
+           | None -> TUnmodelled)
+        | None -> TUnmodelled))
+
+(** val alt_forms : char list -> dur tres0 **)
+
+let alt_forms e =
+  let (a, r) = span_digits e in
+  (match uncons '-' r with
+   | Some r1 ->
+     if Nat.eqb (slen a) (S (S (S (S O))))
+     then alt_extended a r1
+     else TUnmodelled
+   | None -> alt_basic a r)
+
+(** val eXPECTED_ALT_DATE_ALPHABET : char list **)
+
+let eXPECTED_ALT_DATE_ALPHABET =
+  '+'::('-'::('0'::('1'::('2'::('3'::('4'::('5'::('6'::('7'::('8'::('9'::('W'::[]))))))))))))
+
+(** val eXPECTED_ALT_TIME_ALPHABET : char list **)
+
+let eXPECTED_ALT_TIME_ALPHABET =
+  ','::('-'::('.'::('0'::('1'::('2'::('3'::('4'::('5'::('6'::('7'::('8'::('9'::(':'::[])))))))))))))
+
+(** val eXPECTED_ALT_ZONE_ALPHABET : char list **)
+
+let eXPECTED_ALT_ZONE_ALPHABET =
+  '+'::('-'::('0'::('1'::('2'::('3'::('4'::('5'::('6'::('7'::('8'::('9'::(':'::('Z'::[])))))))))))))
+
+(** val str_mem : char -> char list -> bool **)
+
+let rec str_mem c = function
+| [] -> false
+| a::r -> (||) ((=) a c) (str_mem c r)
+
+(** val has_foreign : char list -> char list -> bool **)
+
+let has_foreign alphabet s =
+  negb (str_all (fun c -> (||) ((=) c nL) (str_mem c alphabet)) s)
+
+(** val alt_reject : char list -> dur tres0 **)
+
+let alt_reject e =
+  match split_on 'T' e [] with
+  | [] -> TValueError
+  | d :: l ->
+    (match l with
+     | [] ->
+       if has_foreign eXPECTED_ALT_DATE_ALPHABET d
+       then TSyntax
+       else TUnmodelled
+     | t :: l0 ->
+       (match l0 with
+        | [] ->
+          if (||) (has_foreign eXPECTED_ALT_DATE_ALPHABET d)
+               (has_foreign
+                 (append eXPECTED_ALT_TIME_ALPHABET
+                   eXPECTED_ALT_ZONE_ALPHABET) t)
+          then TSyntax
+          else TUnmodelled
+        | _ :: _ -> TValueError))
 
 (** val alt_parse : char list -> dur tres0 **)
 
 let alt_parse e =
-  let (a, r) = span_digits e in
-  (match r with
-   | [] -> TUnmodelled
-   | a0::r1 ->
-     (* If this appears, you're using Ascii internals. Please don't *)
- (fun f c ->
-  let n = Char.code c in
-  let h i = (n land (1 lsl i)) <> 0 in
-  f (h 0) (h 1) (h 2) (h 3) (h 4) (h 5) (h 6) (h 7))
-       (fun b b0 b1 b2 b3 b4 b5 b6 ->
-       if b
-       then if b0
-            then if b1
-                 then if b2
-                      then TUnmodelled
-                      else if b3
-                           then if b4
-                                then TUnmodelled
-                                else if b5
-                                     then if b6
-                                          then TUnmodelled
-                                          else let (wd, r2) = span_digits r1
-                                               in
-                                               (match r2 with
-                                                | [] -> TUnmodelled
-                                                | a1::t ->
-                                                  (* If this appears, you're using Ascii internals. Please don't *)
- (fun f c ->
-  let n = Char.code c in
-  let h i = (n land (1 lsl i)) <> 0 in
-  f (h 0) (h 1) (h 2) (h 3) (h 4) (h 5) (h 6) (h 7))
-                                                    (fun b7 b8 b9 b10 b11 b12 b13 b14 ->
-                                                    if b7
-                                                    then TUnmodelled
-                                                    else if b8
-                                                         then TUnmodelled
-                                                         else if b9
-                                                              then if b10
-                                                                   then 
-                                                                    TUnmodelled
-                                                                   else 
-                                                                    if b11
-                                                                    then 
-                                                                    if b12
-                                                                    then 
-                                                                    TUnmodelled
-                                                                    else 
-                                                                    if b13
-                                                                    then 
-                                                                    if b14
-                                                                    then 
-                                                                    TUnmodelled
-                                                                    else 
-                                                                    (match 
-                                                                    alt_time_basic
-                                                                    t with
-                                                                    | Some _ ->
-                                                                    if 
-                                                                    (&&)
-                                                                    (Nat.eqb
-                                                                    (slen a)
-                                                                    (S (S (S
-                                                                    (S O)))))
-                                                                    (Nat.eqb
-                                                                    (slen wd)
-                                                                    (S (S (S
-                                                                    O))))
-                                                                    then 
-                                                                    TSyntax
-                                                                    else 
-                                                                    TUnmodelled
-                                                                    | None ->
-                                                                    TUnmodelled)
-                                                                    else 
-                                                                    TUnmodelled
-                                                                    else 
-                                                                    TUnmodelled
-                                                              else TUnmodelled)
-                                                    a1)
-                                     else TUnmodelled
-                           else TUnmodelled
-                 else TUnmodelled
-            else if b1
-                 then if b2
-                      then if b3
-                           then TUnmodelled
-                           else if b4
-                                then if b5
-                                     then TUnmodelled
-                                     else if b6
-                                          then TUnmodelled
-                                          else if negb
-                                                    (Nat.eqb (slen a) (S (S
-                                                      (S (S O)))))
-                                               then TUnmodelled
-                                               else (match r1 with
-                                                     | [] ->
-                                                       let (b7, r2) =
-                                                         span_digits r1
-                                                       in
-                                                       (match r2 with
-                                                        | [] -> TUnmodelled
-                                                        | a1::r3 ->
-                                                          (* If this appears, you're using Ascii internals. Please don't *)
- (fun f c ->
-  let n = Char.code c in
-  let h i = (n land (1 lsl i)) <> 0 in
-  f (h 0) (h 1) (h 2) (h 3) (h 4) (h 5) (h 6) (h 7))
-                                                            (fun b8 b9 b10 b11 b12 b13 b14 b15 ->
-                                                            if b8
-                                                            then if b9
-                                                                 then 
-                                                                   TUnmodelled
-                                                                 else 
-                                                                   if b10
-                                                                   then 
-                                                                    if b11
-                                                                    then 
-                                                                    if b12
-                                                                    then 
-                                                                    TUnmodelled
-                                                                    else 
-                                                                    if b13
-                                                                    then 
-                                                                    if b14
-                                                                    then 
-                                                                    TUnmodelled
-                                                                    else 
-                                                                    if b15
-                                                                    then 
-                                                                    TUnmodelled
-                                                                    else 
-                                                                    let (
-                                                                    c, r4) =
-                                                                    span_digits
-                                                                    r3
-                                                                    in
-                                                                    (
-                                                                    match r4 with
-                                                                    | [] ->
-                                                                    TUnmodelled
-                                                                    | a2::t ->
-                                                                    (* If this appears, you're using Ascii internals. Please don't *)
- (fun f c ->
-  let n = Char.code c in
-  let h i = (n land (1 lsl i)) <> 0 in
-  f (h 0) (h 1) (h 2) (h 3) (h 4) (h 5) (h 6) (h 7))
-                                                                    (fun b16 b17 b18 b19 b20 b21 b22 b23 ->
-                                                                    if b16
-                                                                    then 
-                                                                    TUnmodelled
-                                                                    else 
-                                                                    if b17
-                                                                    then 
-                                                                    TUnmodelled
-                                                                    else 
-                                                                    if b18
-                                                                    then 
-                                                                    if b19
-                                                                    then 
-                                                                    TUnmodelled
-                                                                    else 
-                                                                    if b20
-                                                                    then 
-                                                                    if b21
-                                                                    then 
-                                                                    TUnmodelled
-                                                                    else 
-                                                                    if b22
-                                                                    then 
-                                                                    if b23
-                                                                    then 
-                                                                    TUnmodelled
-                                                                    else 
-                                                                    (match 
-                                                                    alt_time_ext
-                                                                    t with
-                                                                    | Some p ->
-                                                                    let (
-                                                                    p0, s) = p
-                                                                    in
-                                                                    let (
-                                                                    h, mi) =
-                                                                    p0
-                                                                    in
-                                                                    if 
-                                                                    (&&)
-                                                                    (Nat.eqb
-                                                                    (slen b7)
-                                                                    (S (S O)))
-                                                                    (Nat.eqb
-                                                                    (slen c)
-                                                                    (S (S O)))
-                                                                    then 
-                                                                    alt_make
-                                                                    a b7 c h
-                                                                    mi s
-                                                                    else 
-                                                                    TUnmodelled
-                                                                    | None ->
-                                                                    TUnmodelled)
-                                                                    else 
-                                                                    TUnmodelled
-                                                                    else 
-                                                                    TUnmodelled
-                                                                    else 
-                                                                    TUnmodelled)
-                                                                    a2)
-                                                                    else 
-                                                                    TUnmodelled
-                                                                    else 
-                                                                    TUnmodelled
-                                                                   else 
-                                                                    TUnmodelled
-                                                            else if b9
-                                                                 then 
-                                                                   TUnmodelled
-                                                                 else 
-                                                                   if b10
-                                                                   then 
-                                                                    if b11
-                                                                    then 
-                                                                    TUnmodelled
-                                                                    else 
-                                                                    if b12
-                                                                    then 
-                                                                    if b13
-                                                                    then 
-                                                                    TUnmodelled
-                                                                    else 
-                                                                    if b14
-                                                                    then 
-                                                                    if b15
-                                                                    then 
-                                                                    TUnmodelled
-                                                                    else 
-                                                                    (match 
-                                                                    alt_time_ext
-                                                                    r3 with
-                                                                    | Some p ->
-                                                                    let (
-                                                                    p0, s) = p
-                                                                    in
-                                                                    let (
-                                                                    h, mi) =
-                                                                    p0
-                                                                    in
-                                                                    if 
-                                                                    Nat.eqb
-                                                                    (slen b7)
-                                                                    (S (S (S
-                                                                    O)))
-                                                                    then 
-                                                                    alt_make
-                                                                    a
-                                                                    ('0'::[])
-                                                                    b7 h mi s
-                                                                    else 
-                                                                    TUnmodelled
-                                                                    | None ->
-                                                                    TUnmodelled)
-                                                                    else 
-                                                                    TUnmodelled
-                                                                    else 
-                                                                    TUnmodelled
-                                                                   else 
-                                                                    TUnmodelled)
-                                                            a1)
-                                                     | a1::r2 ->
-                                                       (* If this appears, you're using Ascii internals. Please don't *)
- (fun f c ->
-  let n = Char.code c in
-  let h i = (n land (1 lsl i)) <> 0 in
-  f (h 0) (h 1) (h 2) (h 3) (h 4) (h 5) (h 6) (h 7))
-                                                         (fun b7 b8 b9 b10 b11 b12 b13 b14 ->
-                                                         if b7
-                                                         then if b8
-                                                              then if b9
-                                                                   then 
-                                                                    if b10
-                                                                    then 
-                                                                    let (
-                                                                    b15, r3) =
-                                                                    span_digits
-                                                                    r1
-                                                                    in
-                                                                    (
-                                                                    match r3 with
-                                                                    | [] ->
-                                                                    TUnmodelled
-                                                                    | a2::r4 ->
-                                                                    (* If this appears, you're using Ascii internals. Please don't *)
- (fun f c ->
-  let n = Char.code c in
-  let h i = (n land (1 lsl i)) <> 0 in
-  f (h 0) (h 1) (h 2) (h 3) (h 4) (h 5) (h 6) (h 7))
-                                                                    (fun b16 b17 b18 b19 b20 b21 b22 b23 ->
-                                                                    if b16
-                                                                    then 
-                                                                    if b17
-                                                                    then 
-                                                                    TUnmodelled
-                                                                    else 
-                                                                    if b18
-                                                                    then 
-                                                                    if b19
-                                                                    then 
-                                                                    if b20
-                                                                    then 
-                                                                    TUnmodelled
-                                                                    else 
-                                                                    if b21
-                                                                    then 
-                                                                    if b22
-                                                                    then 
-                                                                    TUnmodelled
-                                                                    else 
-                                                                    if b23
-                                                                    then 
-                                                                    TUnmodelled
-                                                                    else 
-                                                                    let (
-                                                                    c, r5) =
-                                                                    span_digits
-                                                                    r4
-                                                                    in
-                                                                    (
-                                                                    match r5 with
-                                                                    | [] ->
-                                                                    TUnmodelled
-                                                                    | a3::t ->
-                                                                    (* If this appears, you're using Ascii internals. Please don't *)
- (fun f c ->
-  let n = Char.code c in
-  let h i = (n land (1 lsl i)) <> 0 in
-  f (h 0) (h 1) (h 2) (h 3) (h 4) (h 5) (h 6) (h 7))
-                                                                    (fun b24 b25 b26 b27 b28 b29 b30 b31 ->
-                                                                    if b24
-                                                                    then 
-                                                                    TUnmodelled
-                                                                    else 
-                                                                    if b25
-                                                                    then 
-                                                                    TUnmodelled
-                                                                    else 
-                                                                    if b26
-                                                                    then 
-                                                                    if b27
-                                                                    then 
-                                                                    TUnmodelled
-                                                                    else 
-                                                                    if b28
-                                                                    then 
-                                                                    if b29
-                                                                    then 
-                                                                    TUnmodelled
-                                                                    else 
-                                                                    if b30
-                                                                    then 
-                                                                    if b31
-                                                                    then 
-                                                                    TUnmodelled
-                                                                    else 
-                                                                    (match 
-                                                                    alt_time_ext
-                                                                    t with
-                                                                    | Some p ->
-                                                                    let (
-                                                                    p0, s) = p
-                                                                    in
-                                                                    let (
-                                                                    h, mi) =
-                                                                    p0
-                                                                    in
-                                                                    if 
-                                                                    (&&)
-                                                                    (Nat.eqb
-                                                                    (slen b15)
-                                                                    (S (S O)))
-                                                                    (Nat.eqb
-                                                                    (slen c)
-                                                                    (S (S O)))
-                                                                    then 
-                                                                    alt_make
-                                                                    a b15 c h
-                                                                    mi s
-                                                                    else 
-                                                                    TUnmodelled
-                                                                    | None ->
-                                                                    TUnmodelled)
-                                                                    else 
-                                                                    TUnmodelled
-                                                                    else 
-                                                                    TUnmodelled
-                                                                    else 
-                                                                    TUnmodelled)
-                                                                    a3)
-                                                                    else 
-                                                                    TUnmodelled
-                                                                    else 
-                                                                    TUnmodelled
-                                                                    else 
-                                                                    TUnmodelled
-                                                                    else 
-                                                                    if b17
-                                                                    then 
-                                                                    TUnmodelled
-                                                                    else 
-                                                                    if b18
-                                                                    then 
-                                                                    if b19
-                                                                    then 
-                                                                    TUnmodelled
-                                                                    else 
-                                                                    if b20
-                                                                    then 
-                                                                    if b21
-                                                                    then 
-                                                                    TUnmodelled
-                                                                    else 
-                                                                    if b22
-                                                                    then 
-                                                                    if b23
-                                                                    then 
-                                                                    TUnmodelled
-                                                                    else 
-                                                                    (match 
-                                                                    alt_time_ext
-                                                                    r4 with
-                                                                    | Some p ->
-                                                                    let (
-                                                                    p0, s) = p
-                                                                    in
-                                                                    let (
-                                                                    h, mi) =
-                                                                    p0
-                                                                    in
-                                                                    if 
-                                                                    Nat.eqb
-                                                                    (slen b15)
-                                                                    (S (S (S
-                                                                    O)))
-                                                                    then 
-                                                                    alt_make
-                                                                    a
-                                                                    ('0'::[])
-                                                                    b15 h mi s
-                                                                    else 
-                                                                    TUnmodelled
-                                                                    | None ->
-                                                                    TUnmodelled)
-                                                                    else 
-                                                                    TUnmodelled
-                                                                    else 
-                                                                    TUnmodelled
-                                                                    else 
-                                                                    TUnmodelled)
-                                                                    a2)
-                                                                    else 
-                                                                    if b11
-                                                                    then 
-                                                                    if b12
-                                                                    then 
-                                                                    let (
-                                                                    b15, r3) =
-                                                                    span_digits
-                                                                    r1
-                                                                    in
-                                                                    (
-                                                                    match r3 with
-                                                                    | [] ->
-                                                                    TUnmodelled
-                                                                    | a2::r4 ->
-                                                                    (* If this appears, you're using Ascii internals. Please don't *)
- (fun f c ->
-  let n = Char.code c in
-  let h i = (n land (1 lsl i)) <> 0 in
-  f (h 0) (h 1) (h 2) (h 3) (h 4) (h 5) (h 6) (h 7))
-                                                                    (fun b16 b17 b18 b19 b20 b21 b22 b23 ->
-                                                                    if b16
-                                                                    then 
-                                                                    if b17
-                                                                    then 
-                                                                    TUnmodelled
-                                                                    else 
-                                                                    if b18
-                                                                    then 
-                                                                    if b19
-                                                                    then 
-                                                                    if b20
-                                                                    then 
-                                                                    TUnmodelled
-                                                                    else 
-                                                                    if b21
-                                                                    then 
-                                                                    if b22
-                                                                    then 
-                                                                    TUnmodelled
-                                                                    else 
-                                                                    if b23
-                                                                    then 
-                                                                    TUnmodelled
-                                                                    else 
-                                                                    let (
-                                                                    c, r5) =
-                                                                    span_digits
-                                                                    r4
-                                                                    in
-                                                                    (
-                                                                    match r5 with
-                                                                    | [] ->
-                                                                    TUnmodelled
-                                                                    | a3::t ->
-                                                                    (* If this appears, you're using Ascii internals. Please don't *)
- (fun f c ->
-  let n = Char.code c in
-  let h i = (n land (1 lsl i)) <> 0 in
-  f (h 0) (h 1) (h 2) (h 3) (h 4) (h 5) (h 6) (h 7))
-                                                                    (fun b24 b25 b26 b27 b28 b29 b30 b31 ->
-                                                                    if b24
-                                                                    then 
-                                                                    TUnmodelled
-                                                                    else 
-                                                                    if b25
-                                                                    then 
-                                                                    TUnmodelled
-                                                                    else 
-                                                                    if b26
-                                                                    then 
-                                                                    if b27
-                                                                    then 
-                                                                    TUnmodelled
-                                                                    else 
-                                                                    if b28
-                                                                    then 
-                                                                    if b29
-                                                                    then 
-                                                                    TUnmodelled
-                                                                    else 
-                                                                    if b30
-                                                                    then 
-                                                                    if b31
-                                                                    then 
-                                                                    TUnmodelled
-                                                                    else 
-                                                                    (match 
-                                                                    alt_time_ext
-                                                                    t with
-                                                                    | Some p ->
-                                                                    let (
-                                                                    p0, s) = p
-                                                                    in
-                                                                    let (
-                                                                    h, mi) =
-                                                                    p0
-                                                                    in
-                                                                    if 
-                                                                    (&&)
-                                                                    (Nat.eqb
-                                                                    (slen b15)
-                                                                    (S (S O)))
-                                                                    (Nat.eqb
-                                                                    (slen c)
-                                                                    (S (S O)))
-                                                                    then 
-                                                                    alt_make
-                                                                    a b15 c h
-                                                                    mi s
-                                                                    else 
-                                                                    TUnmodelled
-                                                                    | None ->
-                                                                    TUnmodelled)
-                                                                    else 
-                                                                    TUnmodelled
-                                                                    else 
-                                                                    TUnmodelled
-                                                                    else 
-                                                                    TUnmodelled)
-                                                                    a3)
-                                                                    else 
-                                                                    TUnmodelled
-                                                                    else 
-                                                                    TUnmodelled
-                                                                    else 
-                                                                    TUnmodelled
-                                                                    else 
-                                                                    if b17
-                                                                    then 
-                                                                    TUnmodelled
-                                                                    else 
-                                                                    if b18
-                                                                    then 
-                                                                    if b19
-                                                                    then 
-                                                                    TUnmodelled
-                                                                    else 
-                                                                    if b20
-                                                                    then 
-                                                                    if b21
-                                                                    then 
-                                                                    TUnmodelled
-                                                                    else 
-                                                                    if b22
-                                                                    then 
-                                                                    if b23
-                                                                    then 
-                                                                    TUnmodelled
-                                                                    else 
-                                                                    (match 
-                                                                    alt_time_ext
-                                                                    r4 with
-                                                                    | Some p ->
-                                                                    let (
-                                                                    p0, s) = p
-                                                                    in
-                                                                    let (
-                                                                    h, mi) =
-                                                                    p0
-                                                                    in
-                                                                    if 
-                                                                    Nat.eqb
-                                                                    (slen b15)
-                                                                    (S (S (S
-                                                                    O)))
-                                                                    then 
-                                                                    alt_make
-                                                                    a
-                                                                    ('0'::[])
-                                                                    b15 h mi s
-                                                                    else 
-                                                                    TUnmodelled
-                                                                    | None ->
-                                                                    TUnmodelled)
-                                                                    else 
-                                                                    TUnmodelled
-                                                                    else 
-                                                                    TUnmodelled
-                                                                    else 
-                                                                    TUnmodelled)
-                                                                    a2)
-                                                                    else 
-                                                                    if b13
-                                                                    then 
-                                                                    if b14
-                                                                    then 
-                                                                    let (
-                                                                    b15, r3) =
-                                                                    span_digits
-                                                                    r1
-                                                                    in
-                                                                    (
-                                                                    match r3 with
-                                                                    | [] ->
-                                                                    TUnmodelled
-                                                                    | a2::r4 ->
-                                                                    (* If this appears, you're using Ascii internals. Please don't *)
- (fun f c ->
-  let n = Char.code c in
-  let h i = (n land (1 lsl i)) <> 0 in
-  f (h 0) (h 1) (h 2) (h 3) (h 4) (h 5) (h 6) (h 7))
-                                                                    (fun b16 b17 b18 b19 b20 b21 b22 b23 ->
-                                                                    if b16
-                                                                    then 
-                                                                    if b17
-                                                                    then 
-                                                                    TUnmodelled
-                                                                    else 
-                                                                    if b18
-                                                                    then 
-                                                                    if b19
-                                                                    then 
-                                                                    if b20
-                                                                    then 
-                                                                    TUnmodelled
-                                                                    else 
-                                                                    if b21
-                                                                    then 
-                                                                    if b22
-                                                                    then 
-                                                                    TUnmodelled
-                                                                    else 
-                                                                    if b23
-                                                                    then 
-                                                                    TUnmodelled
-                                                                    else 
-                                                                    let (
-                                                                    c, r5) =
-                                                                    span_digits
-                                                                    r4
-                                                                    in
-                                                                    (
-                                                                    match r5 with
-                                                                    | [] ->
-                                                                    TUnmodelled
-                                                                    | a3::t ->
-                                                                    (* If this appears, you're using Ascii internals. Please don't *)
- (fun f c ->
-  let n = Char.code c in
-  let h i = (n land (1 lsl i)) <> 0 in
-  f (h 0) (h 1) (h 2) (h 3) (h 4) (h 5) (h 6) (h 7))
-                                                                    (fun b24 b25 b26 b27 b28 b29 b30 b31 ->
-                                                                    if b24
-                                                                    then 
-                                                                    TUnmodelled
-                                                                    else 
-                                                                    if b25
-                                                                    then 
-                                                                    TUnmodelled
-                                                                    else 
-                                                                    if b26
-                                                                    then 
-                                                                    if b27
-                                                                    then 
-                                                                    TUnmodelled
-                                                                    else 
-                                                                    if b28
-                                                                    then 
-                                                                    if b29
-                                                                    then 
-                                                                    TUnmodelled
-                                                                    else 
-                                                                    if b30
-                                                                    then 
-                                                                    if b31
-                                                                    then 
-                                                                    TUnmodelled
-                                                                    else 
-                                                                    (match 
-                                                                    alt_time_ext
-                                                                    t with
-                                                                    | Some p ->
-                                                                    let (
-                                                                    p0, s) = p
-                                                                    in
-                                                                    let (
-                                                                    h, mi) =
-                                                                    p0
-                                                                    in
-                                                                    if 
-                                                                    (&&)
-                                                                    (Nat.eqb
-                                                                    (slen b15)
-                                                                    (S (S O)))
-                                                                    (Nat.eqb
-                                                                    (slen c)
-                                                                    (S (S O)))
-                                                                    then 
-                                                                    alt_make
-                                                                    a b15 c h
-                                                                    mi s
-                                                                    else 
-                                                                    TUnmodelled
-                                                                    | None ->
-                                                                    TUnmodelled)
-                                                                    else 
-                                                                    TUnmodelled
-                                                                    else 
-                                                                    TUnmodelled
-                                                                    else 
-                                                                    TUnmodelled)
-                                                                    a3)
-                                                                    else 
-                                                                    TUnmodelled
-                                                                    else 
-                                                                    TUnmodelled
-                                                                    else 
-                                                                    TUnmodelled
-                                                                    else 
-                                                                    if b17
-                                                                    then 
-                                                                    TUnmodelled
-                                                                    else 
-                                                                    if b18
-                                                                    then 
-                                                                    if b19
-                                                                    then 
-                                                                    TUnmodelled
-                                                                    else 
-                                                                    if b20
-                                                                    then 
-                                                                    if b21
-                                                                    then 
-                                                                    TUnmodelled
-                                                                    else 
-                                                                    if b22
-                                                                    then 
-                                                                    if b23
-                                                                    then 
-                                                                    TUnmodelled
-                                                                    else 
-                                                                    (match 
-                                                                    alt_time_ext
-                                                                    r4 with
-                                                                    | Some p ->
-                                                                    let (
-                                                                    p0, s) = p
-                                                                    in
-                                                                    let (
-                                                                    h, mi) =
-                                                                    p0
-                                                                    in
-                                                                    if 
-                                                                    Nat.eqb
-                                                                    (slen b15)
-                                                                    (S (S (S
-                                                                    O)))
-                                                                    then 
-                                                                    alt_make
-                                                                    a
-                                                                    ('0'::[])
-                                                                    b15 h mi s
-                                                                    else 
-                                                                    TUnmodelled
-                                                                    | None ->
-                                                                    TUnmodelled)
-                                                                    else 
-                                                                    TUnmodelled
-                                                                    else 
-                                                                    TUnmodelled
-                                                                    else 
-                                                                    TUnmodelled)
-                                                                    a2)
-                                                                    else 
-                                                                    let (
-                                                                    w, r3) =
-                                                                    span_digits
-                                                                    r2
-                                                                    in
-                                                                    (
-                                                                    match r3 with
-                                                                    | [] ->
-                                                                    TUnmodelled
-                                                                    | a2::r4 ->
-                                                                    (* If this appears, you're using Ascii internals. Please don't *)
- (fun f c ->
-  let n = Char.code c in
-  let h i = (n land (1 lsl i)) <> 0 in
-  f (h 0) (h 1) (h 2) (h 3) (h 4) (h 5) (h 6) (h 7))
-                                                                    (fun b15 b16 b17 b18 b19 b20 b21 b22 ->
-                                                                    if b15
-                                                                    then 
-                                                                    if b16
-                                                                    then 
-                                                                    TUnmodelled
-                                                                    else 
-                                                                    if b17
-                                                                    then 
-                                                                    if b18
-                                                                    then 
-                                                                    if b19
-                                                                    then 
-                                                                    TUnmodelled
-                                                                    else 
-                                                                    if b20
-                                                                    then 
-                                                                    if b21
-                                                                    then 
-                                                                    TUnmodelled
-                                                                    else 
-                                                                    if b22
-                                                                    then 
-                                                                    TUnmodelled
-                                                                    else 
-                                                                    let (
-                                                                    dd, r5) =
-                                                                    span_digits
-                                                                    r4
-                                                                    in
-                                                                    (
-                                                                    match r5 with
-                                                                    | [] ->
-                                                                    TUnmodelled
-                                                                    | a3::t ->
-                                                                    (* If this appears, you're using Ascii internals. Please don't *)
- (fun f c ->
-  let n = Char.code c in
-  let h i = (n land (1 lsl i)) <> 0 in
-  f (h 0) (h 1) (h 2) (h 3) (h 4) (h 5) (h 6) (h 7))
-                                                                    (fun b23 b24 b25 b26 b27 b28 b29 b30 ->
-                                                                    if b23
-                                                                    then 
-                                                                    TUnmodelled
-                                                                    else 
-                                                                    if b24
-                                                                    then 
-                                                                    TUnmodelled
-                                                                    else 
-                                                                    if b25
-                                                                    then 
-                                                                    if b26
-                                                                    then 
-                                                                    TUnmodelled
-                                                                    else 
-                                                                    if b27
-                                                                    then 
-                                                                    if b28
-                                                                    then 
-                                                                    TUnmodelled
-                                                                    else 
-                                                                    if b29
-                                                                    then 
-                                                                    if b30
-                                                                    then 
-                                                                    TUnmodelled
-                                                                    else 
-                                                                    (match 
-                                                                    alt_time_ext
-                                                                    t with
-                                                                    | Some _ ->
-                                                                    if 
-                                                                    (&&)
-                                                                    (Nat.eqb
-                                                                    (slen w)
-                                                                    (S (S O)))
-                                                                    (Nat.eqb
-                                                                    (slen dd)
-                                                                    (S O))
-                                                                    then 
-                                                                    TSyntax
-                                                                    else 
-                                                                    TUnmodelled
-                                                                    | None ->
-                                                                    TUnmodelled)
-                                                                    else 
-                                                                    TUnmodelled
-                                                                    else 
-                                                                    TUnmodelled
-                                                                    else 
-                                                                    TUnmodelled)
-                                                                    a3)
-                                                                    else 
-                                                                    TUnmodelled
-                                                                    else 
-                                                                    TUnmodelled
-                                                                    else 
-                                                                    TUnmodelled
-                                                                    else 
-                                                                    TUnmodelled)
-                                                                    a2)
-                                                                    else 
-                                                                    let (
-                                                                    b15, r3) =
-                                                                    span_digits
-                                                                    r1
-                                                                    in
-                                                                    (
-                                                                    match r3 with
-                                                                    | [] ->
-                                                                    TUnmodelled
-                                                                    | a2::r4 ->
-                                                                    (* If this appears, you're using Ascii internals. Please don't *)
- (fun f c ->
-  let n = Char.code c in
-  let h i = (n land (1 lsl i)) <> 0 in
-  f (h 0) (h 1) (h 2) (h 3) (h 4) (h 5) (h 6) (h 7))
-                                                                    (fun b16 b17 b18 b19 b20 b21 b22 b23 ->
-                                                                    if b16
-                                                                    then 
-                                                                    if b17
-                                                                    then 
-                                                                    TUnmodelled
-                                                                    else 
-                                                                    if b18
-                                                                    then 
-                                                                    if b19
-                                                                    then 
-                                                                    if b20
-                                                                    then 
-                                                                    TUnmodelled
-                                                                    else 
-                                                                    if b21
-                                                                    then 
-                                                                    if b22
-                                                                    then 
-                                                                    TUnmodelled
-                                                                    else 
-                                                                    if b23
-                                                                    then 
-                                                                    TUnmodelled
-                                                                    else 
-                                                                    let (
-                                                                    c, r5) =
-                                                                    span_digits
-                                                                    r4
-                                                                    in
-                                                                    (
-                                                                    match r5 with
-                                                                    | [] ->
-                                                                    TUnmodelled
-                                                                    | a3::t ->
-                                                                    (* If this appears, you're using Ascii internals. Please don't *)
- (fun f c ->
-  let n = Char.code c in
-  let h i = (n land (1 lsl i)) <> 0 in
-  f (h 0) (h 1) (h 2) (h 3) (h 4) (h 5) (h 6) (h 7))
-                                                                    (fun b24 b25 b26 b27 b28 b29 b30 b31 ->
-                                                                    if b24
-                                                                    then 
-                                                                    TUnmodelled
-                                                                    else 
-                                                                    if b25
-                                                                    then 
-                                                                    TUnmodelled
-                                                                    else 
-                                                                    if b26
-                                                                    then 
-                                                                    if b27
-                                                                    then 
-                                                                    TUnmodelled
-                                                                    else 
-                                                                    if b28
-                                                                    then 
-                                                                    if b29
-                                                                    then 
-                                                                    TUnmodelled
-                                                                    else 
-                                                                    if b30
-                                                                    then 
-                                                                    if b31
-                                                                    then 
-                                                                    TUnmodelled
-                                                                    else 
-                                                                    (match 
-                                                                    alt_time_ext
-                                                                    t with
-                                                                    | Some p ->
-                                                                    let (
-                                                                    p0, s) = p
-                                                                    in
-                                                                    let (
-                                                                    h, mi) =
-                                                                    p0
-                                                                    in
-                                                                    if 
-                                                                    (&&)
-                                                                    (Nat.eqb
-                                                                    (slen b15)
-                                                                    (S (S O)))
-                                                                    (Nat.eqb
-                                                                    (slen c)
-                                                                    (S (S O)))
-                                                                    then 
-                                                                    alt_make
-                                                                    a b15 c h
-                                                                    mi s
-                                                                    else 
-                                                                    TUnmodelled
-                                                                    | None ->
-                                                                    TUnmodelled)
-                                                                    else 
-                                                                    TUnmodelled
-                                                                    else 
-                                                                    TUnmodelled
-                                                                    else 
-                                                                    TUnmodelled)
-                                                                    a3)
-                                                                    else 
-                                                                    TUnmodelled
-                                                                    else 
-                                                                    TUnmodelled
-                                                                    else 
-                                                                    TUnmodelled
-                                                                    else 
-                                                                    if b17
-                                                                    then 
-                                                                    TUnmodelled
-                                                                    else 
-                                                                    if b18
-                                                                    then 
-                                                                    if b19
-                                                                    then 
-                                                                    TUnmodelled
-                                                                    else 
-                                                                    if b20
-                                                                    then 
-                                                                    if b21
-                                                                    then 
-                                                                    TUnmodelled
-                                                                    else 
-                                                                    if b22
-                                                                    then 
-                                                                    if b23
-                                                                    then 
-                                                                    TUnmodelled
-                                                                    else 
-                                                                    (match 
-                                                                    alt_time_ext
-                                                                    r4 with
-                                                                    | Some p ->
-                                                                    let (
-                                                                    p0, s) = p
-                                                                    in
-                                                                    let (
-                                                                    h, mi) =
-                                                                    p0
-                                                                    in
-                                                                    if 
-                                                                    Nat.eqb
-                                                                    (slen b15)
-                                                                    (S (S (S
-                                                                    O)))
-                                                                    then 
-                                                                    alt_make
-                                                                    a
-                                                                    ('0'::[])
-                                                                    b15 h mi s
-                                                                    else 
-                                                                    TUnmodelled
-                                                                    | None ->
-                                                                    TUnmodelled)
-                                                                    else 
-                                                                    TUnmodelled
-                                                                    else 
-                                                                    TUnmodelled
-                                                                    else 
-                                                                    TUnmodelled)
-                                                                    a2)
-                                                                    else 
-                                                                    let (
-                                                                    b15, r3) =
-                                                                    span_digits
-                                                                    r1
-                                                                    in
-                                                                    (
-                                                                    match r3 with
-                                                                    | [] ->
-                                                                    TUnmodelled
-                                                                    | a2::r4 ->
-                                                                    (* If this appears, you're using Ascii internals. Please don't *)
- (fun f c ->
-  let n = Char.code c in
-  let h i = (n land (1 lsl i)) <> 0 in
-  f (h 0) (h 1) (h 2) (h 3) (h 4) (h 5) (h 6) (h 7))
-                                                                    (fun b16 b17 b18 b19 b20 b21 b22 b23 ->
-                                                                    if b16
-                                                                    then 
-                                                                    if b17
-                                                                    then 
-                                                                    TUnmodelled
-                                                                    else 
-                                                                    if b18
-                                                                    then 
-                                                                    if b19
-                                                                    then 
-                                                                    if b20
-                                                                    then 
-                                                                    TUnmodelled
-                                                                    else 
-                                                                    if b21
-                                                                    then 
-                                                                    if b22
-                                                                    then 
-                                                                    TUnmodelled
-                                                                    else 
-                                                                    if b23
-                                                                    then 
-                                                                    TUnmodelled
-                                                                    else 
-                                                                    let (
-                                                                    c, r5) =
-                                                                    span_digits
-                                                                    r4
-                                                                    in
-                                                                    (
-                                                                    match r5 with
-                                                                    | [] ->
-                                                                    TUnmodelled
-                                                                    | a3::t ->
-                                                                    (* If this appears, you're using Ascii internals. Please don't *)
- (fun f c ->
-  let n = Char.code c in
-  let h i = (n land (1 lsl i)) <> 0 in
-  f (h 0) (h 1) (h 2) (h 3) (h 4) (h 5) (h 6) (h 7))
-                                                                    (fun b24 b25 b26 b27 b28 b29 b30 b31 ->
-                                                                    if b24
-                                                                    then 
-                                                                    TUnmodelled
-                                                                    else 
-                                                                    if b25
-                                                                    then 
-                                                                    TUnmodelled
-                                                                    else 
-                                                                    if b26
-                                                                    then 
-                                                                    if b27
-                                                                    then 
-                                                                    TUnmodelled
-                                                                    else 
-                                                                    if b28
-                                                                    then 
-                                                                    if b29
-                                                                    then 
-                                                                    TUnmodelled
-                                                                    else 
-                                                                    if b30
-                                                                    then 
-                                                                    if b31
-                                                                    then 
-                                                                    TUnmodelled
-                                                                    else 
-                                                                    (match 
-                                                                    alt_time_ext
-                                                                    t with
-                                                                    | Some p ->
-                                                                    let (
-                                                                    p0, s) = p
-                                                                    in
-                                                                    let (
-                                                                    h, mi) =
-                                                                    p0
-                                                                    in
-                                                                    if 
-                                                                    (&&)
-                                                                    (Nat.eqb
-                                                                    (slen b15)
-                                                                    (S (S O)))
-                                                                    (Nat.eqb
-                                                                    (slen c)
-                                                                    (S (S O)))
-                                                                    then 
-                                                                    alt_make
-                                                                    a b15 c h
-                                                                    mi s
-                                                                    else 
-                                                                    TUnmodelled
-                                                                    | None ->
-                                                                    TUnmodelled)
-                                                                    else 
-                                                                    TUnmodelled
-                                                                    else 
-                                                                    TUnmodelled
-                                                                    else 
-                                                                    TUnmodelled)
-                                                                    a3)
-                                                                    else 
-                                                                    TUnmodelled
-                                                                    else 
-                                                                    TUnmodelled
-                                                                    else 
-                                                                    TUnmodelled
-                                                                    else 
-                                                                    if b17
-                                                                    then 
-                                                                    TUnmodelled
-                                                                    else 
-                                                                    if b18
-                                                                    then 
-                                                                    if b19
-                                                                    then 
-                                                                    TUnmodelled
-                                                                    else 
-                                                                    if b20
-                                                                    then 
-                                                                    if b21
-                                                                    then 
-                                                                    TUnmodelled
-                                                                    else 
-                                                                    if b22
-                                                                    then 
-                                                                    if b23
-                                                                    then 
-                                                                    TUnmodelled
-                                                                    else 
-                                                                    (match 
-                                                                    alt_time_ext
-                                                                    r4 with
-                                                                    | Some p ->
-                                                                    let (
-                                                                    p0, s) = p
-                                                                    in
-                                                                    let (
-                                                                    h, mi) =
-                                                                    p0
-                                                                    in
-                                                                    if 
-                                                                    Nat.eqb
-                                                                    (slen b15)
-                                                                    (S (S (S
-                                                                    O)))
-                                                                    then 
-                                                                    alt_make
-                                                                    a
-                                                                    ('0'::[])
-                                                                    b15 h mi s
-                                                                    else 
-                                                                    TUnmodelled
-                                                                    | None ->
-                                                                    TUnmodelled)
-                                                                    else 
-                                                                    TUnmodelled
-                                                                    else 
-                                                                    TUnmodelled
-                                                                    else 
-                                                                    TUnmodelled)
-                                                                    a2)
-                                                                   else 
-                                                                    let (
-                                                                    b15, r3) =
-                                                                    span_digits
-                                                                    r1
-                                                                    in
-                                                                    (
-                                                                    match r3 with
-                                                                    | [] ->
-                                                                    TUnmodelled
-                                                                    | a2::r4 ->
-                                                                    (* If this appears, you're using Ascii internals. Please don't *)
- (fun f c ->
-  let n = Char.code c in
-  let h i = (n land (1 lsl i)) <> 0 in
-  f (h 0) (h 1) (h 2) (h 3) (h 4) (h 5) (h 6) (h 7))
-                                                                    (fun b16 b17 b18 b19 b20 b21 b22 b23 ->
-                                                                    if b16
-                                                                    then 
-                                                                    if b17
-                                                                    then 
-                                                                    TUnmodelled
-                                                                    else 
-                                                                    if b18
-                                                                    then 
-                                                                    if b19
-                                                                    then 
-                                                                    if b20
-                                                                    then 
-                                                                    TUnmodelled
-                                                                    else 
-                                                                    if b21
-                                                                    then 
-                                                                    if b22
-                                                                    then 
-                                                                    TUnmodelled
-                                                                    else 
-                                                                    if b23
-                                                                    then 
-                                                                    TUnmodelled
-                                                                    else 
-                                                                    let (
-                                                                    c, r5) =
-                                                                    span_digits
-                                                                    r4
-                                                                    in
-                                                                    (
-                                                                    match r5 with
-                                                                    | [] ->
-                                                                    TUnmodelled
-                                                                    | a3::t ->
-                                                                    (* If this appears, you're using Ascii internals. Please don't *)
- (fun f c ->
-  let n = Char.code c in
-  let h i = (n land (1 lsl i)) <> 0 in
-  f (h 0) (h 1) (h 2) (h 3) (h 4) (h 5) (h 6) (h 7))
-                                                                    (fun b24 b25 b26 b27 b28 b29 b30 b31 ->
-                                                                    if b24
-                                                                    then 
-                                                                    TUnmodelled
-                                                                    else 
-                                                                    if b25
-                                                                    then 
-                                                                    TUnmodelled
-                                                                    else 
-                                                                    if b26
-                                                                    then 
-                                                                    if b27
-                                                                    then 
-                                                                    TUnmodelled
-                                                                    else 
-                                                                    if b28
-                                                                    then 
-                                                                    if b29
-                                                                    then 
-                                                                    TUnmodelled
-                                                                    else 
-                                                                    if b30
-                                                                    then 
-                                                                    if b31
-                                                                    then 
-                                                                    TUnmodelled
-                                                                    else 
-                                                                    (match 
-                                                                    alt_time_ext
-                                                                    t with
-                                                                    | Some p ->
-                                                                    let (
-                                                                    p0, s) = p
-                                                                    in
-                                                                    let (
-                                                                    h, mi) =
-                                                                    p0
-                                                                    in
-                                                                    if 
-                                                                    (&&)
-                                                                    (Nat.eqb
-                                                                    (slen b15)
-                                                                    (S (S O)))
-                                                                    (Nat.eqb
-                                                                    (slen c)
-                                                                    (S (S O)))
-                                                                    then 
-                                                                    alt_make
-                                                                    a b15 c h
-                                                                    mi s
-                                                                    else 
-                                                                    TUnmodelled
-                                                                    | None ->
-                                                                    TUnmodelled)
-                                                                    else 
-                                                                    TUnmodelled
-                                                                    else 
-                                                                    TUnmodelled
-                                                                    else 
-                                                                    TUnmodelled)
-                                                                    a3)
-                                                                    else 
-                                                                    TUnmodelled
-                                                                    else 
-                                                                    TUnmodelled
-                                                                    else 
-                                                                    TUnmodelled
-                                                                    else 
-                                                                    if b17
-                                                                    then 
-                                                                    TUnmodelled
-                                                                    else 
-                                                                    if b18
-                                                                    then 
-                                                                    if b19
-                                                                    then 
-                                                                    TUnmodelled
-                                                                    else 
-                                                                    if b20
-                                                                    then 
-                                                                    if b21
-                                                                    then 
-                                                                    TUnmodelled
-                                                                    else 
-                                                                    if b22
-                                                                    then 
-                                                                    if b23
-                                                                    then 
-                                                                    TUnmodelled
-                                                                    else 
-                                                                    (match 
-                                                                    alt_time_ext
-                                                                    r4 with
-                                                                    | Some p ->
-                                                                    let (
-                                                                    p0, s) = p
-                                                                    in
-                                                                    let (
-                                                                    h, mi) =
-                                                                    p0
-                                                                    in
-                                                                    if 
-                                                                    Nat.eqb
-                                                                    (slen b15)
-                                                                    (S (S (S
-                                                                    O)))
-                                                                    then 
-                                                                    alt_make
-                                                                    a
-                                                                    ('0'::[])
-                                                                    b15 h mi s
-                                                                    else 
-                                                                    TUnmodelled
-                                                                    | None ->
-                                                                    TUnmodelled)
-                                                                    else 
-                                                                    TUnmodelled
-                                                                    else 
-                                                                    TUnmodelled
-                                                                    else 
-                                                                    TUnmodelled)
-                                                                    a2)
-                                                              else let (
-                                                                    b15, r3) =
-                                                                    span_digits
-                                                                    r1
-                                                                   in
-                                                                   (match r3 with
-                                                                    | [] ->
-                                                                    TUnmodelled
-                                                                    | a2::r4 ->
-                                                                    (* If this appears, you're using Ascii internals. Please don't *)
- (fun f c ->
-  let n = Char.code c in
-  let h i = (n land (1 lsl i)) <> 0 in
-  f (h 0) (h 1) (h 2) (h 3) (h 4) (h 5) (h 6) (h 7))
-                                                                    (fun b16 b17 b18 b19 b20 b21 b22 b23 ->
-                                                                    if b16
-                                                                    then 
-                                                                    if b17
-                                                                    then 
-                                                                    TUnmodelled
-                                                                    else 
-                                                                    if b18
-                                                                    then 
-                                                                    if b19
-                                                                    then 
-                                                                    if b20
-                                                                    then 
-                                                                    TUnmodelled
-                                                                    else 
-                                                                    if b21
-                                                                    then 
-                                                                    if b22
-                                                                    then 
-                                                                    TUnmodelled
-                                                                    else 
-                                                                    if b23
-                                                                    then 
-                                                                    TUnmodelled
-                                                                    else 
-                                                                    let (
-                                                                    c, r5) =
-                                                                    span_digits
-                                                                    r4
-                                                                    in
-                                                                    (
-                                                                    match r5 with
-                                                                    | [] ->
-                                                                    TUnmodelled
-                                                                    | a3::t ->
-                                                                    (* If this appears, you're using Ascii internals. Please don't *)
- (fun f c ->
-  let n = Char.code c in
-  let h i = (n land (1 lsl i)) <> 0 in
-  f (h 0) (h 1) (h 2) (h 3) (h 4) (h 5) (h 6) (h 7))
-                                                                    (fun b24 b25 b26 b27 b28 b29 b30 b31 ->
-                                                                    if b24
-                                                                    then 
-                                                                    TUnmodelled
-                                                                    else 
-                                                                    if b25
-                                                                    then 
-                                                                    TUnmodelled
-                                                                    else 
-                                                                    if b26
-                                                                    then 
-                                                                    if b27
-                                                                    then 
-                                                                    TUnmodelled
-                                                                    else 
-                                                                    if b28
-                                                                    then 
-                                                                    if b29
-                                                                    then 
-                                                                    TUnmodelled
-                                                                    else 
-                                                                    if b30
-                                                                    then 
-                                                                    if b31
-                                                                    then 
-                                                                    TUnmodelled
-                                                                    else 
-                                                                    (match 
-                                                                    alt_time_ext
-                                                                    t with
-                                                                    | Some p ->
-                                                                    let (
-                                                                    p0, s) = p
-                                                                    in
-                                                                    let (
-                                                                    h, mi) =
-                                                                    p0
-                                                                    in
-                                                                    if 
-                                                                    (&&)
-                                                                    (Nat.eqb
-                                                                    (slen b15)
-                                                                    (S (S O)))
-                                                                    (Nat.eqb
-                                                                    (slen c)
-                                                                    (S (S O)))
-                                                                    then 
-                                                                    alt_make
-                                                                    a b15 c h
-                                                                    mi s
-                                                                    else 
-                                                                    TUnmodelled
-                                                                    | None ->
-                                                                    TUnmodelled)
-                                                                    else 
-                                                                    TUnmodelled
-                                                                    else 
-                                                                    TUnmodelled
-                                                                    else 
-                                                                    TUnmodelled)
-                                                                    a3)
-                                                                    else 
-                                                                    TUnmodelled
-                                                                    else 
-                                                                    TUnmodelled
-                                                                    else 
-                                                                    TUnmodelled
-                                                                    else 
-                                                                    if b17
-                                                                    then 
-                                                                    TUnmodelled
-                                                                    else 
-                                                                    if b18
-                                                                    then 
-                                                                    if b19
-                                                                    then 
-                                                                    TUnmodelled
-                                                                    else 
-                                                                    if b20
-                                                                    then 
-                                                                    if b21
-                                                                    then 
-                                                                    TUnmodelled
-                                                                    else 
-                                                                    if b22
-                                                                    then 
-                                                                    if b23
-                                                                    then 
-                                                                    TUnmodelled
-                                                                    else 
-                                                                    (match 
-                                                                    alt_time_ext
-                                                                    r4 with
-                                                                    | Some p ->
-                                                                    let (
-                                                                    p0, s) = p
-                                                                    in
-                                                                    let (
-                                                                    h, mi) =
-                                                                    p0
-                                                                    in
-                                                                    if 
-                                                                    Nat.eqb
-                                                                    (slen b15)
-                                                                    (S (S (S
-                                                                    O)))
-                                                                    then 
-                                                                    alt_make
-                                                                    a
-                                                                    ('0'::[])
-                                                                    b15 h mi s
-                                                                    else 
-                                                                    TUnmodelled
-                                                                    | None ->
-                                                                    TUnmodelled)
-                                                                    else 
-                                                                    TUnmodelled
-                                                                    else 
-                                                                    TUnmodelled
-                                                                    else 
-                                                                    TUnmodelled)
-                                                                    a2)
-                                                         else let (b15, r3) =
-                                                                span_digits r1
-                                                              in
-                                                              (match r3 with
-                                                               | [] ->
-                                                                 TUnmodelled
-                                                               | a2::r4 ->
-                                                                 (* If this appears, you're using Ascii internals. Please don't *)
- (fun f c ->
-  let n = Char.code c in
-  let h i = (n land (1 lsl i)) <> 0 in
-  f (h 0) (h 1) (h 2) (h 3) (h 4) (h 5) (h 6) (h 7))
-                                                                   (fun b16 b17 b18 b19 b20 b21 b22 b23 ->
-                                                                   if b16
-                                                                   then 
-                                                                    if b17
-                                                                    then 
-                                                                    TUnmodelled
-                                                                    else 
-                                                                    if b18
-                                                                    then 
-                                                                    if b19
-                                                                    then 
-                                                                    if b20
-                                                                    then 
-                                                                    TUnmodelled
-                                                                    else 
-                                                                    if b21
-                                                                    then 
-                                                                    if b22
-                                                                    then 
-                                                                    TUnmodelled
-                                                                    else 
-                                                                    if b23
-                                                                    then 
-                                                                    TUnmodelled
-                                                                    else 
-                                                                    let (
-                                                                    c, r5) =
-                                                                    span_digits
-                                                                    r4
-                                                                    in
-                                                                    (
-                                                                    match r5 with
-                                                                    | [] ->
-                                                                    TUnmodelled
-                                                                    | a3::t ->
-                                                                    (* If this appears, you're using Ascii internals. Please don't *)
- (fun f c ->
-  let n = Char.code c in
-  let h i = (n land (1 lsl i)) <> 0 in
-  f (h 0) (h 1) (h 2) (h 3) (h 4) (h 5) (h 6) (h 7))
-                                                                    (fun b24 b25 b26 b27 b28 b29 b30 b31 ->
-                                                                    if b24
-                                                                    then 
-                                                                    TUnmodelled
-                                                                    else 
-                                                                    if b25
-                                                                    then 
-                                                                    TUnmodelled
-                                                                    else 
-                                                                    if b26
-                                                                    then 
-                                                                    if b27
-                                                                    then 
-                                                                    TUnmodelled
-                                                                    else 
-                                                                    if b28
-                                                                    then 
-                                                                    if b29
-                                                                    then 
-                                                                    TUnmodelled
-                                                                    else 
-                                                                    if b30
-                                                                    then 
-                                                                    if b31
-                                                                    then 
-                                                                    TUnmodelled
-                                                                    else 
-                                                                    (match 
-                                                                    alt_time_ext
-                                                                    t with
-                                                                    | Some p ->
-                                                                    let (
-                                                                    p0, s) = p
-                                                                    in
-                                                                    let (
-                                                                    h, mi) =
-                                                                    p0
-                                                                    in
-                                                                    if 
-                                                                    (&&)
-                                                                    (Nat.eqb
-                                                                    (slen b15)
-                                                                    (S (S O)))
-                                                                    (Nat.eqb
-                                                                    (slen c)
-                                                                    (S (S O)))
-                                                                    then 
-                                                                    alt_make
-                                                                    a b15 c h
-                                                                    mi s
-                                                                    else 
-                                                                    TUnmodelled
-                                                                    | None ->
-                                                                    TUnmodelled)
-                                                                    else 
-                                                                    TUnmodelled
-                                                                    else 
-                                                                    TUnmodelled
-                                                                    else 
-                                                                    TUnmodelled)
-                                                                    a3)
-                                                                    else 
-                                                                    TUnmodelled
-                                                                    else 
-                                                                    TUnmodelled
-                                                                    else 
-                                                                    TUnmodelled
-                                                                   else 
-                                                                    if b17
-                                                                    then 
-                                                                    TUnmodelled
-                                                                    else 
-                                                                    if b18
-                                                                    then 
-                                                                    if b19
-                                                                    then 
-                                                                    TUnmodelled
-                                                                    else 
-                                                                    if b20
-                                                                    then 
-                                                                    if b21
-                                                                    then 
-                                                                    TUnmodelled
-                                                                    else 
-                                                                    if b22
-                                                                    then 
-                                                                    if b23
-                                                                    then 
-                                                                    TUnmodelled
-                                                                    else 
-                                                                    (match 
-                                                                    alt_time_ext
-                                                                    r4 with
-                                                                    | Some p ->
-                                                                    let (
-                                                                    p0, s) = p
-                                                                    in
-                                                                    let (
-                                                                    h, mi) =
-                                                                    p0
-                                                                    in
-                                                                    if 
-                                                                    Nat.eqb
-                                                                    (slen b15)
-                                                                    (S (S (S
-                                                                    O)))
-                                                                    then 
-                                                                    alt_make
-                                                                    a
-                                                                    ('0'::[])
-                                                                    b15 h mi s
-                                                                    else 
-                                                                    TUnmodelled
-                                                                    | None ->
-                                                                    TUnmodelled)
-                                                                    else 
-                                                                    TUnmodelled
-                                                                    else 
-                                                                    TUnmodelled
-                                                                    else 
-                                                                    TUnmodelled)
-                                                                   a2))
-                                                         a1)
-                                else TUnmodelled
-                      else TUnmodelled
-                 else TUnmodelled
-       else if b0
-            then TUnmodelled
-            else if b1
-                 then if b2
-                      then TUnmodelled
-                      else if b3
-                           then if b4
-                                then TUnmodelled
-                                else if b5
-                                     then if b6
-                                          then TUnmodelled
-                                          else (match alt_time_basic r1 with
-                                                | Some p ->
-                                                  let (p0, s) = p in
-                                                  let (h, mi) = p0 in
-                                                  if Nat.eqb (slen a) (S (S
-                                                       (S (S (S (S (S (S
-                                                       O))))))))
-                                                  then alt_make
-                                                         (stake (S (S (S (S
-                                                           O)))) a)
-                                                         (stake (S (S O))
-                                                           (sdrop (S (S (S (S
-                                                             O)))) a))
-                                                         (sdrop (S (S (S (S
-                                                           (S (S O)))))) a) h
-                                                         mi s
-                                                  else if Nat.eqb (slen a) (S
-                                                            (S (S (S (S (S (S
-                                                            O)))))))
-                                                       then alt_make
-                                                              (stake (S (S (S
-                                                                (S O)))) a)
-                                                              ('0'::[])
-                                                              (sdrop (S (S (S
-                                                                (S O)))) a) h
-                                                              mi s
-                                                       else TUnmodelled
-                                                | None -> TUnmodelled)
-                                     else TUnmodelled
-                           else TUnmodelled
-                 else TUnmodelled)
-       a0)
+  match alt_forms e with
+  | TUnmodelled -> alt_reject e
+  | x -> x
 
 (** val dur_parse : char list -> dur tres0 **)
 
 let dur_parse expr =
   if negb (str_all is_ascii7 expr)
   then TUnmodelled
-  else (match expr with
-        | [] ->
+  else (match uncons '-' expr with
+        | Some r ->
+          let sg = Zneg XH in
+          (match re1 r with
+           | Some g -> convert sg g
+           | None ->
+             (match re2 r with
+              | Some g -> convert sg g
+              | None ->
+                (match re3 r with
+                 | Some g -> convert sg g
+                 | None ->
+                   (match uncons 'P' r with
+                    | Some r0 ->
+                      if Z.eqb sg (Zneg XH) then TSyntax else alt_parse r0
+                    | None -> TSyntax))))
+        | None ->
           let sg = Zpos XH in
           (match re1 expr with
            | Some g -> convert sg g
@@ -8285,532 +6354,10 @@ let dur_parse expr =
                 (match re3 expr with
                  | Some g -> convert sg g
                  | None ->
-                   (match expr with
-                    | [] -> TSyntax
-                    | a::r ->
-                      (* If this appears, you're using Ascii internals. Please don't *)
- (fun f c ->
-  let n = Char.code c in
-  let h i = (n land (1 lsl i)) <> 0 in
-  f (h 0) (h 1) (h 2) (h 3) (h 4) (h 5) (h 6) (h 7))
-                        (fun b b0 b1 b2 b3 b4 b5 b6 ->
-                        if b
-                        then TSyntax
-                        else if b0
-                             then TSyntax
-                             else if b1
-                                  then TSyntax
-                                  else if b2
-                                       then TSyntax
-                                       else if b3
-                                            then if b4
-                                                 then TSyntax
-                                                 else if b5
-                                                      then if b6
-                                                           then TSyntax
-                                                           else if Z.eqb sg
-                                                                    (Zneg XH)
-                                                                then TSyntax
-                                                                else 
-                                                                  alt_parse r
-                                                      else TSyntax
-                                            else TSyntax)
-                        a))))
-        | a::r ->
-          (* If this appears, you're using Ascii internals. Please don't *)
- (fun f c ->
-  let n = Char.code c in
-  let h i = (n land (1 lsl i)) <> 0 in
-  f (h 0) (h 1) (h 2) (h 3) (h 4) (h 5) (h 6) (h 7))
-            (fun b b0 b1 b2 b3 b4 b5 b6 ->
-            if b
-            then if b0
-                 then let sg = Zpos XH in
-                      (match re1 expr with
-                       | Some g -> convert sg g
-                       | None ->
-                         (match re2 expr with
-                          | Some g -> convert sg g
-                          | None ->
-                            (match re3 expr with
-                             | Some g -> convert sg g
-                             | None ->
-                               (match expr with
-                                | [] -> TSyntax
-                                | a0::r0 ->
-                                  (* If this appears, you're using Ascii internals. Please don't *)
- (fun f c ->
-  let n = Char.code c in
-  let h i = (n land (1 lsl i)) <> 0 in
-  f (h 0) (h 1) (h 2) (h 3) (h 4) (h 5) (h 6) (h 7))
-                                    (fun b7 b8 b9 b10 b11 b12 b13 b14 ->
-                                    if b7
-                                    then TSyntax
-                                    else if b8
-                                         then TSyntax
-                                         else if b9
-                                              then TSyntax
-                                              else if b10
-                                                   then TSyntax
-                                                   else if b11
-                                                        then if b12
-                                                             then TSyntax
-                                                             else if b13
-                                                                  then 
-                                                                    if b14
-                                                                    then 
-                                                                    TSyntax
-                                                                    else 
-                                                                    if 
-                                                                    Z.eqb sg
-                                                                    (Zneg XH)
-                                                                    then 
-                                                                    TSyntax
-                                                                    else 
-                                                                    alt_parse
-                                                                    r0
-                                                                  else TSyntax
-                                                        else TSyntax)
-                                    a0))))
-                 else if b1
-                      then if b2
-                           then if b3
-                                then let sg = Zpos XH in
-                                     (match re1 expr with
-                                      | Some g -> convert sg g
-                                      | None ->
-                                        (match re2 expr with
-                                         | Some g -> convert sg g
-                                         | None ->
-                                           (match re3 expr with
-                                            | Some g -> convert sg g
-                                            | None ->
-                                              (match expr with
-                                               | [] -> TSyntax
-                                               | a0::r0 ->
-                                                 (* If this appears, you're using Ascii internals. Please don't *)
- (fun f c ->
-  let n = Char.code c in
-  let h i = (n land (1 lsl i)) <> 0 in
-  f (h 0) (h 1) (h 2) (h 3) (h 4) (h 5) (h 6) (h 7))
-                                                   (fun b7 b8 b9 b10 b11 b12 b13 b14 ->
-                                                   if b7
-                                                   then TSyntax
-                                                   else if b8
-                                                        then TSyntax
-                                                        else if b9
-                                                             then TSyntax
-                                                             else if b10
-                                                                  then TSyntax
-                                                                  else 
-                                                                    if b11
-                                                                    then 
-                                                                    if b12
-                                                                    then 
-                                                                    TSyntax
-                                                                    else 
-                                                                    if b13
-                                                                    then 
-                                                                    if b14
-                                                                    then 
-                                                                    TSyntax
-                                                                    else 
-                                                                    if 
-                                                                    Z.eqb sg
-                                                                    (Zneg XH)
-                                                                    then 
-                                                                    TSyntax
-                                                                    else 
-                                                                    alt_parse
-                                                                    r0
-                                                                    else 
-                                                                    TSyntax
-                                                                    else 
-                                                                    TSyntax)
-                                                   a0))))
-                                else if b4
-                                     then if b5
-                                          then let sg = Zpos XH in
-                                               (match re1 expr with
-                                                | Some g -> convert sg g
-                                                | None ->
-                                                  (match re2 expr with
-                                                   | Some g -> convert sg g
-                                                   | None ->
-                                                     (match re3 expr with
-                                                      | Some g -> convert sg g
-                                                      | None ->
-                                                        (match expr with
-                                                         | [] -> TSyntax
-                                                         | a0::r0 ->
-                                                           (* If this appears, you're using Ascii internals. Please don't *)
- (fun f c ->
-  let n = Char.code c in
-  let h i = (n land (1 lsl i)) <> 0 in
-  f (h 0) (h 1) (h 2) (h 3) (h 4) (h 5) (h 6) (h 7))
-                                                             (fun b7 b8 b9 b10 b11 b12 b13 b14 ->
-                                                             if b7
-                                                             then TSyntax
-                                                             else if b8
-                                                                  then TSyntax
-                                                                  else 
-                                                                    if b9
-                                                                    then 
-                                                                    TSyntax
-                                                                    else 
-                                                                    if b10
-                                                                    then 
-                                                                    TSyntax
-                                                                    else 
-                                                                    if b11
-                                                                    then 
-                                                                    if b12
-                                                                    then 
-                                                                    TSyntax
-                                                                    else 
-                                                                    if b13
-                                                                    then 
-                                                                    if b14
-                                                                    then 
-                                                                    TSyntax
-                                                                    else 
-                                                                    if 
-                                                                    Z.eqb sg
-                                                                    (Zneg XH)
-                                                                    then 
-                                                                    TSyntax
-                                                                    else 
-                                                                    alt_parse
-                                                                    r0
-                                                                    else 
-                                                                    TSyntax
-                                                                    else 
-                                                                    TSyntax)
-                                                             a0))))
-                                          else if b6
-                                               then let sg = Zpos XH in
-                                                    (match re1 expr with
-                                                     | Some g -> convert sg g
-                                                     | None ->
-                                                       (match re2 expr with
-                                                        | Some g ->
-                                                          convert sg g
-                                                        | None ->
-                                                          (match re3 expr with
-                                                           | Some g ->
-                                                             convert sg g
-                                                           | None ->
-                                                             (match expr with
-                                                              | [] -> TSyntax
-                                                              | a0::r0 ->
-                                                                (* If this appears, you're using Ascii internals. Please don't *)
- (fun f c ->
-  let n = Char.code c in
-  let h i = (n land (1 lsl i)) <> 0 in
-  f (h 0) (h 1) (h 2) (h 3) (h 4) (h 5) (h 6) (h 7))
-                                                                  (fun b7 b8 b9 b10 b11 b12 b13 b14 ->
-                                                                  if b7
-                                                                  then TSyntax
-                                                                  else 
-                                                                    if b8
-                                                                    then 
-                                                                    TSyntax
-                                                                    else 
-                                                                    if b9
-                                                                    then 
-                                                                    TSyntax
-                                                                    else 
-                                                                    if b10
-                                                                    then 
-                                                                    TSyntax
-                                                                    else 
-                                                                    if b11
-                                                                    then 
-                                                                    if b12
-                                                                    then 
-                                                                    TSyntax
-                                                                    else 
-                                                                    if b13
-                                                                    then 
-                                                                    if b14
-                                                                    then 
-                                                                    TSyntax
-                                                                    else 
-                                                                    if 
-                                                                    Z.eqb sg
-                                                                    (Zneg XH)
-                                                                    then 
-                                                                    TSyntax
-                                                                    else 
-                                                                    alt_parse
-                                                                    r0
-                                                                    else 
-                                                                    TSyntax
-                                                                    else 
-                                                                    TSyntax)
-                                                                  a0))))
-                                               else let sg = Zneg XH in
-                                                    (match re1 r with
-                                                     | Some g -> convert sg g
-                                                     | None ->
-                                                       (match re2 r with
-                                                        | Some g ->
-                                                          convert sg g
-                                                        | None ->
-                                                          (match re3 r with
-                                                           | Some g ->
-                                                             convert sg g
-                                                           | None ->
-                                                             (match r with
-                                                              | [] -> TSyntax
-                                                              | a0::r0 ->
-                                                                (* If this appears, you're using Ascii internals. Please don't *)
- (fun f c ->
-  let n = Char.code c in
-  let h i = (n land (1 lsl i)) <> 0 in
-  f (h 0) (h 1) (h 2) (h 3) (h 4) (h 5) (h 6) (h 7))
-                                                                  (fun b7 b8 b9 b10 b11 b12 b13 b14 ->
-                                                                  if b7
-                                                                  then TSyntax
-                                                                  else 
-                                                                    if b8
-                                                                    then 
-                                                                    TSyntax
-                                                                    else 
-                                                                    if b9
-                                                                    then 
-                                                                    TSyntax
-                                                                    else 
-                                                                    if b10
-                                                                    then 
-                                                                    TSyntax
-                                                                    else 
-                                                                    if b11
-                                                                    then 
-                                                                    if b12
-                                                                    then 
-                                                                    TSyntax
-                                                                    else 
-                                                                    if b13
-                                                                    then 
-                                                                    if b14
-                                                                    then 
-                                                                    TSyntax
-                                                                    else 
-                                                                    if 
-                                                                    Z.eqb sg
-                                                                    (Zneg XH)
-                                                                    then 
-                                                                    TSyntax
-                                                                    else 
-                                                                    alt_parse
-                                                                    r0
-                                                                    else 
-                                                                    TSyntax
-                                                                    else 
-                                                                    TSyntax)
-                                                                  a0))))
-                                     else let sg = Zpos XH in
-                                          (match re1 expr with
-                                           | Some g -> convert sg g
-                                           | None ->
-                                             (match re2 expr with
-                                              | Some g -> convert sg g
-                                              | None ->
-                                                (match re3 expr with
-                                                 | Some g -> convert sg g
-                                                 | None ->
-                                                   (match expr with
-                                                    | [] -> TSyntax
-                                                    | a0::r0 ->
-                                                      (* If this appears, you're using Ascii internals. Please don't *)
- (fun f c ->
-  let n = Char.code c in
-  let h i = (n land (1 lsl i)) <> 0 in
-  f (h 0) (h 1) (h 2) (h 3) (h 4) (h 5) (h 6) (h 7))
-                                                        (fun b7 b8 b9 b10 b11 b12 b13 b14 ->
-                                                        if b7
-                                                        then TSyntax
-                                                        else if b8
-                                                             then TSyntax
-                                                             else if b9
-                                                                  then TSyntax
-                                                                  else 
-                                                                    if b10
-                                                                    then 
-                                                                    TSyntax
-                                                                    else 
-                                                                    if b11
-                                                                    then 
-                                                                    if b12
-                                                                    then 
-                                                                    TSyntax
-                                                                    else 
-                                                                    if b13
-                                                                    then 
-                                                                    if b14
-                                                                    then 
-                                                                    TSyntax
-                                                                    else 
-                                                                    if 
-                                                                    Z.eqb sg
-                                                                    (Zneg XH)
-                                                                    then 
-                                                                    TSyntax
-                                                                    else 
-                                                                    alt_parse
-                                                                    r0
-                                                                    else 
-                                                                    TSyntax
-                                                                    else 
-                                                                    TSyntax)
-                                                        a0))))
-                           else let sg = Zpos XH in
-                                (match re1 expr with
-                                 | Some g -> convert sg g
-                                 | None ->
-                                   (match re2 expr with
-                                    | Some g -> convert sg g
-                                    | None ->
-                                      (match re3 expr with
-                                       | Some g -> convert sg g
-                                       | None ->
-                                         (match expr with
-                                          | [] -> TSyntax
-                                          | a0::r0 ->
-                                            (* If this appears, you're using Ascii internals. Please don't *)
- (fun f c ->
-  let n = Char.code c in
-  let h i = (n land (1 lsl i)) <> 0 in
-  f (h 0) (h 1) (h 2) (h 3) (h 4) (h 5) (h 6) (h 7))
-                                              (fun b7 b8 b9 b10 b11 b12 b13 b14 ->
-                                              if b7
-                                              then TSyntax
-                                              else if b8
-                                                   then TSyntax
-                                                   else if b9
-                                                        then TSyntax
-                                                        else if b10
-                                                             then TSyntax
-                                                             else if b11
-                                                                  then 
-                                                                    if b12
-                                                                    then 
-                                                                    TSyntax
-                                                                    else 
-                                                                    if b13
-                                                                    then 
-                                                                    if b14
-                                                                    then 
-                                                                    TSyntax
-                                                                    else 
-                                                                    if 
-                                                                    Z.eqb sg
-                                                                    (Zneg XH)
-                                                                    then 
-                                                                    TSyntax
-                                                                    else 
-                                                                    alt_parse
-                                                                    r0
-                                                                    else 
-                                                                    TSyntax
-                                                                  else TSyntax)
-                                              a0))))
-                      else let sg = Zpos XH in
-                           (match re1 expr with
-                            | Some g -> convert sg g
-                            | None ->
-                              (match re2 expr with
-                               | Some g -> convert sg g
-                               | None ->
-                                 (match re3 expr with
-                                  | Some g -> convert sg g
-                                  | None ->
-                                    (match expr with
-                                     | [] -> TSyntax
-                                     | a0::r0 ->
-                                       (* If this appears, you're using Ascii internals. Please don't *)
- (fun f c ->
-  let n = Char.code c in
-  let h i = (n land (1 lsl i)) <> 0 in
-  f (h 0) (h 1) (h 2) (h 3) (h 4) (h 5) (h 6) (h 7))
-                                         (fun b7 b8 b9 b10 b11 b12 b13 b14 ->
-                                         if b7
-                                         then TSyntax
-                                         else if b8
-                                              then TSyntax
-                                              else if b9
-                                                   then TSyntax
-                                                   else if b10
-                                                        then TSyntax
-                                                        else if b11
-                                                             then if b12
-                                                                  then TSyntax
-                                                                  else 
-                                                                    if b13
-                                                                    then 
-                                                                    if b14
-                                                                    then 
-                                                                    TSyntax
-                                                                    else 
-                                                                    if 
-                                                                    Z.eqb sg
-                                                                    (Zneg XH)
-                                                                    then 
-                                                                    TSyntax
-                                                                    else 
-                                                                    alt_parse
-                                                                    r0
-                                                                    else 
-                                                                    TSyntax
-                                                             else TSyntax)
-                                         a0))))
-            else let sg = Zpos XH in
-                 (match re1 expr with
-                  | Some g -> convert sg g
-                  | None ->
-                    (match re2 expr with
-                     | Some g -> convert sg g
-                     | None ->
-                       (match re3 expr with
-                        | Some g -> convert sg g
-                        | None ->
-                          (match expr with
-                           | [] -> TSyntax
-                           | a0::r0 ->
-                             (* If this appears, you're using Ascii internals. Please don't *)
- (fun f c ->
-  let n = Char.code c in
-  let h i = (n land (1 lsl i)) <> 0 in
-  f (h 0) (h 1) (h 2) (h 3) (h 4) (h 5) (h 6) (h 7))
-                               (fun b7 b8 b9 b10 b11 b12 b13 b14 ->
-                               if b7
-                               then TSyntax
-                               else if b8
-                                    then TSyntax
-                                    else if b9
-                                         then TSyntax
-                                         else if b10
-                                              then TSyntax
-                                              else if b11
-                                                   then if b12
-                                                        then TSyntax
-                                                        else if b13
-                                                             then if b14
-                                                                  then TSyntax
-                                                                  else 
-                                                                    if 
-                                                                    Z.eqb sg
-                                                                    (Zneg XH)
-                                                                    then 
-                                                                    TSyntax
-                                                                    else 
-                                                                    alt_parse
-                                                                    r0
-                                                             else TSyntax
-                                                   else TSyntax)
-                               a0)))))
-            a)
+                   (match uncons 'P' expr with
+                    | Some r ->
+                      if Z.eqb sg (Zneg XH) then TSyntax else alt_parse r
+                    | None -> TSyntax)))))
 
 (** val hex_val : char -> n option **)
 
